@@ -144,6 +144,7 @@ func genConfig(t *rapid.T, p *Profile) Config {
 		c.PrefillAllKeys = true
 		c.PrefillClustered = rapid.IntRange(0, 2).Draw(t, "prefill_clustered") > 0
 		c.PrefillAgeS = rapid.SampledFrom([]int{0, 11, 11, 4000}).Draw(t, "prefill_age")
+		c.PrefillSkew = rapid.Bool().Draw(t, "prefill_skew")
 	}
 	return c
 }
